@@ -124,6 +124,7 @@ align 16
 mk_global  pq_check_sse, function
 func(pq_check_sse)
 	FUNC_SAVE
+	movsxd	vec, DWORD(vec)	;vects is a signed int
 	sub	vec, 3			;Keep as offset to last source
 	jng	return_fail		;Must have at least 2 sources
 	cmp	len, 0
